@@ -13,7 +13,8 @@ func init() {
 		}
 	}
 	add("C01", "R01d: where the map forest moves a node (Get, Delete at the old position, Put at the new one) every path from the delete to the next iteration or a success "+
-		"return passes the put - a conditional put after an unconditional delete loses the node (an empty root lost on growth shows only many blocks later).", "")
+		"return passes the put - a conditional put after an unconditional delete loses the node (an empty root lost on growth shows only many blocks later). R01e: the method that stores TotalRows (the growth step, sized for one more leaf) "+
+		"is reached, in the add phase of the map forest's Modify, inside the loop over the added leaves and on each of its iterations.", "")
 	add("C03", "R03d: a failing return of the core is guarded by a comparison of a claimed position with a bound computed from the leaf count. R03e (E7 layout analysis): on every "+
 		"verification path positions are handed to position arithmetic, translation and the node store only in the coordinate system (tree layout of TreeRows(NumLeaves) vs the "+
 		"map forest's TotalRows layout) the accompanying height denotes. R03f: target hashes and proof hashes are compared with the reserved zero hash, with an error return, before "+
